@@ -99,10 +99,33 @@ func runC02(r *R) {
 				c, ok := Resolve1(v).(*ssa.Call)
 				return ok && CalleeName(c.Common()) == "(*os.File).Name" && tmpfile(c.Call.Args[0])
 			}
+			// the copy may go through writers wrapped around the temp file (counting, buffering); every buffering
+			// layer then needs a Flush whose error is checked before Close (a deferred or ignored Flush loses the
+			// write error of the last chunk: a truncated file would be published and acknowledged)
+			var flushSteps []ChainStep
+			flushMissing := false
 			for _, c := range CallsIn(fn, "io.Copy") {
-				if tmpfile(c.Common().Args[0]) && same(c.Common().Args[1], rdr) {
-					cp = c
+				okW, bufws := writesThrough(c.Common().Args[0], tmpfile, 0)
+				if !okW || !same(c.Common().Args[1], rdr) {
+					continue
 				}
+				cp = c
+				for _, bw := range bufws {
+					var fl ssa.CallInstruction
+					for _, fc := range CallsIn(fn, "(*bufio.Writer).Flush") {
+						if _, isCall := fc.(*ssa.Call); isCall && same(fc.Common().Args[0], bw) && ErrUsed(fc) {
+							fl = fc
+						}
+					}
+					if fl == nil {
+						flushMissing = true
+					} else {
+						flushSteps = append(flushSteps, ChainStep{"bufio.Writer.Flush()", fl})
+					}
+				}
+			}
+			if flushMissing {
+				r.Bad("C02-R1", fn, "Flush of the buffered writer", fn.Pos(), "block data is copied through a bufio.Writer whose Flush error is not checked (deferred or ignored): a failed write of the last chunk goes unnoticed, the truncated temp file is renamed onto the block path and the PUT is acknowledged")
 			}
 			for _, c := range CallsIn(fn, "(*os.File).Close") {
 				if _, isCall := c.(*ssa.Call); isCall && tmpfile(c.Common().Args[0]) && ErrUsed(c) {
@@ -131,9 +154,8 @@ func runC02(r *R) {
 						continue
 					}
 					n++
-					r.CheckChain("C02-R1", fn, []ChainStep{
-						{"TempFile", tmp}, {"io.Copy(tmpfile,rdr)", cp}, {"tmpfile.Close()", cl}, {"os.Chtimes(tmp,now)", ch}, {"Rename(tmp,blockPath)", rn},
-					}, ret, "return nil")
+					r.CheckChain("C02-R1", fn, append([]ChainStep{
+						{"TempFile", tmp}, {"io.Copy(tmpfile,rdr)", cp}}, append(flushSteps, ChainStep{"tmpfile.Close()", cl}, ChainStep{"os.Chtimes(tmp,now)", ch}, ChainStep{"Rename(tmp,blockPath)", rn})...), ret, "return nil")
 				}
 				if n == 0 {
 					r.Bad("C02-R1", fn, "return nil", fn.Pos(), "no success return found")
@@ -497,4 +519,41 @@ func pipeCloseRule(r *R, rule string) {
 		}
 	}
 
+}
+
+// writesThrough: v is the temp file itself or a writer constructed around it (bufio.NewWriter[Size], the
+// driver's counting writer, …: any constructor call that takes a write-through writer as an argument and
+// returns an io.Writer). It returns the bufio writers on the way, innermost first.
+func writesThrough(v ssa.Value, tmpfile func(ssa.Value) bool, depth int) (bool, []ssa.Value) {
+	if depth > 4 {
+		return false, nil
+	}
+	v = Resolve1(v)
+	for {
+		if mi, ok := v.(*ssa.MakeInterface); ok {
+			v = Resolve1(mi.X)
+			continue
+		}
+		if ci, ok := v.(*ssa.ChangeInterface); ok {
+			v = Resolve1(ci.X)
+			continue
+		}
+		break
+	}
+	if tmpfile(v) {
+		return true, nil
+	}
+	c, ok := v.(*ssa.Call)
+	if !ok {
+		return false, nil
+	}
+	name := CalleeName(c.Common())
+	switch {
+	case name == "bufio.NewWriter" || name == "bufio.NewWriterSize":
+		ok, b := writesThrough(c.Call.Args[0], tmpfile, depth+1)
+		return ok, append(b, ssa.Value(c))
+	case strings.HasSuffix(name, ".NewCountingWriter"):
+		return writesThrough(c.Call.Args[0], tmpfile, depth+1)
+	}
+	return false, nil
 }
